@@ -570,7 +570,14 @@ func (g *GoBackNConn) receivePacketsForever() error { // nolint:gocyclo
 			g.pongTicker.Pause()
 		}
 
-		g.resendTicker.Reset(g.timeoutManager.GetResendTimeout())
+		// Only feedback about our own packets postpones the next resend.
+		// If any received packet did (the peer's data, its keepalive
+		// pings), a peer that keeps sending at a pace quicker than our
+		// resend timeout would keep us from ever resending a lost packet.
+		switch msg.(type) {
+		case *PacketACK, *PacketNACK:
+			g.resendTicker.Reset(g.timeoutManager.GetResendTimeout())
+		}
 
 		switch m := msg.(type) {
 		case *PacketData:
